@@ -44,7 +44,7 @@ def b32_values():
 def shards(tier, seed):
     sh = [("logical", t, lo) for t in LTYPES for lo in range(0, 65536, 8192)]
     sh += [("logical32", t) for t in LTYPES]
-    sh += [("reqpath",), ("ports",), ("symbols",), ("epathopts",)]
+    sh += [("reqpath",), ("ports",), ("symbols",), ("epathopts",), ("seghist",)]
     sh += [("tags", i) for i in range(16)]
     sh += [("route-history", i) for i in range(3)]
     sh += [("upload-paths", pn, pers) for pn in ("P3", "P4", "P2") for pers in ("v20", "v32")] + [("upload-paths", "P3", "m800"), ("upload-paths", "P1", "m800")]
@@ -258,6 +258,14 @@ def check_epathopts(rep):
             rep.case(("epathiter", cname, repr(want)), outcome="ok" if ok else "bad")
             if not ok:
                 rep.violation(f"epath/segments-container/{cname}", f"PADDED_EPATH.encode(<{cname} of the segments {want!r}>, length=True) -> {r[1].hex() if r[0]=='ok' else r!r}; parser {p!r:.100}", {"kind": "epathopts", "want": repr(want), "opts": [cname]})
+        # path types derived by an application keep the padding rule of the type they derive from (old-style `padded = True` included)
+        derived = (("subclass-of-PADDED_EPATH", type("RequestPath", (C.PADDED_EPATH,), {}), C.PADDED_EPATH), ("subclass-of-PACKED_EPATH", type("Packed2", (C.PACKED_EPATH,), {}), C.PACKED_EPATH),
+                   ("EPATH-with-padded-True", type("OldStyle", (C.EPATH,), {"padded": True}), C.PADDED_EPATH), ("sub-subclass", type("Deeper", (type("Mid", (C.PADDED_EPATH,), {}),), {}), C.PADDED_EPATH))
+        for dname, sub, parent in derived:
+            r1, r2 = _enc(sub.encode, segs, length=True), _enc(parent.encode, segs, length=True)
+            rep.case(("epathsub", dname, repr(want)), outcome="ok" if r1 == r2 else "bad")
+            if r1 != r2:
+                rep.violation(f"epath/derived-type/{dname}", f"{dname}.encode({want!r}, length=True) -> {r1[1].hex() if r1[0] == 'ok' else r1!r}, its parent type gives {r2[1].hex() if r2[0] == 'ok' else r2!r}", {"kind": "epathopts", "want": repr(want), "opts": [dname]})
         # already-encoded bytes pass through
         pre = E.build(want)
         r = _enc(C.PADDED_EPATH.encode, [pre[:2], pre[2:]], length=True)
@@ -265,6 +273,50 @@ def check_epathopts(rep):
         rep.case(("epathbytes", repr(want)), outcome="ok" if p == ("ok", want) else "bad")
         if p != ("ok", want):
             rep.violation("epath/bytes-passthrough", f"PADDED_EPATH.encode(pre-encoded bytes) -> {r!r:.100}; parser {p!r:.100}", {"kind": "epathbytes", "want": repr(want)})
+
+
+def check_segment_histories(rep):
+    """E2 on segment OBJECTS: one segment encoded several times (packed then padded and the other way round, alone and inside paths), copied,
+    and given another value between two encodings - every encoding is that of a fresh segment with the current values."""
+    import copy
+    import pycomm3.cip as C
+
+    def fresh(mk, padded):
+        return _enc((C.PADDED_EPATH if padded else C.PACKED_EPATH).encode, [mk()], length=True)
+
+    makers = []
+    for lt in LTYPES:
+        for v in (1, 0xFF, 0x100, 0xFFFF, 0x10000):
+            makers.append((f"LogicalSegment({v:#x},{lt})", lambda v=v, lt=lt: C.LogicalSegment(v, lt), ("logical_value", 0x1234 if v != 0x1234 else 7)))
+    for port, link in (("bp", 3), (2, "10.2.3.4"), ("enet", "192.168.100.200"), (20, 5)):
+        makers.append((f"PortSegment({port!r},{link!r})", lambda port=port, link=link: C.PortSegment(port, link), ("link_address", 9)))
+    makers.append(("DataSegment('abc')", lambda: C.DataSegment("abc"), ("data", "wxyz")))
+    for label, mk, (attr, newval) in makers:
+        for order in ((False, True), (True, False), (True, True, False), (False, False, True)):
+            seg = mk()
+            probs = []
+            for padded in order:
+                got = _enc((C.PADDED_EPATH if padded else C.PACKED_EPATH).encode, [seg], length=True)
+                if got != fresh(mk, padded):
+                    probs.append(f"encoded {'padded' if padded else 'packed'} after {order!r}: {got[1].hex() if got[0] == 'ok' else got!r}, a fresh segment gives {fresh(mk, padded)[1].hex() if fresh(mk, padded)[0] == 'ok' else fresh(mk, padded)!r}")
+                    break
+            rep.case(("seghist", label, order), outcome="ok" if not probs else "bad")
+            for p_ in probs:
+                rep.violation("segment-history/encoded-twice", f"{label}: {p_}", {"kind": "seghist"})
+        # a copy, and the same object with another value
+        seg = mk()
+        _enc(C.PADDED_EPATH.encode, [seg], length=True)
+        for how in ("copy", "same-object"):
+            s2 = copy.copy(seg) if how == "copy" else seg
+            if not hasattr(s2, attr):
+                continue
+            setattr(s2, attr, newval)
+            ref = mk()
+            setattr(ref, attr, newval)
+            got, want = _enc(C.PADDED_EPATH.encode, [s2], length=True), _enc(C.PADDED_EPATH.encode, [ref], length=True)
+            rep.case(("segmut", label, how), outcome="ok" if got == want else "bad")
+            if got != want:
+                rep.violation(f"segment-history/value-changed/{how}", f"{label}: {attr} set to {newval!r} on {'a copy of an' if how == 'copy' else 'the'} already encoded segment: encodes as {got[1].hex() if got[0] == 'ok' else got!r}, a fresh segment with that value as {want[1].hex() if want[0] == 'ok' else want!r}", {"kind": "seghist"})
 
 
 def tag_cases(tier):
@@ -538,6 +590,8 @@ def run_shard(shard, tier, seed):
         check_symbols(rep)
     elif k == "epathopts":
         check_epathopts(rep)
+    elif k == "seghist":
+        check_segment_histories(rep)
     elif k == "tags":
         check_tags(rep, shard[1], tier)
     elif k == "driver-paths":
@@ -581,6 +635,8 @@ def replay(r):
         check_symbols(rep)
     elif k in ("epathopts", "epathbytes"):
         check_epathopts(rep)
+    elif k == "seghist":
+        check_segment_histories(rep)
     elif k == "tag":
         from pycomm3.packets.util import tag_request_path
         use_ids = r["mode"].startswith("id")
